@@ -45,6 +45,11 @@ fn parse_all(d: &[u8]) -> usize {
     if SignedSecretKey::from_bytes(d).is_ok() { n += 1; }
     if DetachedSignature::from_bytes(d).is_ok() { n += 1; }
     if let Ok(mut m) = Message::from_bytes(d) { n += 1; if !m.is_encrypted() && !m.is_compressed() { let mut sink = [0u8; 4096]; while let Ok(k) = m.read(&mut sink) { if k == 0 { break; } } } }
+    // the other ways a caller takes the payload: read_to_end into its own vector, the convenience accessors, read then read_to_end
+    if let Ok(mut m) = Message::from_bytes(d) { if !m.is_encrypted() && !m.is_compressed() { let mut v = Vec::new(); if m.read_to_end(&mut v).is_ok() { n += 1; } } }
+    if let Ok(mut m) = Message::from_bytes(d) { if !m.is_encrypted() && !m.is_compressed() { if m.as_data_vec().is_ok() { n += 1; } } }
+    if let Ok(mut m) = Message::from_bytes(d) { if !m.is_encrypted() && !m.is_compressed() { if m.as_data_string().is_ok() { n += 1; } } }
+    if let Ok(mut m) = Message::from_bytes(d) { if !m.is_encrypted() && !m.is_compressed() { let mut b = [0u8; 7]; let _ = m.read(&mut b); let mut v = Vec::new(); if m.read_to_end(&mut v).is_ok() { n += 1; } } }
     n
 }
 
@@ -65,6 +70,29 @@ fn main() {
         out.finish(); return;
     }
     let thorough = cli.tier == "thorough";
+
+    // ---- 0. literal data packets (bare, behind a one-pass signature, inside an uncompressed "compressed" packet) that declare
+    //         2^16 .. 2^31 octets over a body of 32 or 20 000: new-format five-octet and legacy four-octet lengths
+    {
+        for declared in [1u32 << 16, 1 << 20, 1 << 24, 1 << 28, (1u32 << 31) - 1] {
+            for have in [32usize, 20_000] {
+                for legacy in [false, true] {
+                    let mut body = vec![b'b', 0, 0, 0, 0, 0]; body.extend((0..have).map(|i| i as u8));
+                    let mut lit = if legacy { vec![0x80 | (11 << 2) | 2] } else { vec![0xC0 | 11, 0xFF] }; lit.extend(declared.to_be_bytes()); lit.extend_from_slice(&body);
+                    let mut comp = vec![0xC0 | 8, 0xFF]; comp.extend(((lit.len() + 1) as u32).to_be_bytes()); comp.push(0); comp.extend_from_slice(&lit);
+                    let ops = { let mut o = vec![0xC0 | 4, 13, 3, 0, 8, 27]; o.extend([1u8, 2, 3, 4, 5, 6, 7, 8]); o.push(1); o };
+                    for (shape, d) in [("bare", lit.clone()), ("compressed", comp), ("onepass", [ops, lit.clone()].concat())] {
+                        let run = |d: &[u8]| { let mut n = parse_all(d); if let Ok(m) = Message::from_bytes(d) { if m.is_compressed() { if let Ok(mut dm) = m.decompress() { let mut v = Vec::new(); if dm.read_to_end(&mut v).is_ok() { n += 1; } } } } if let Ok(m) = Message::from_bytes(d) { if m.is_compressed() { if let Ok(mut dm) = m.decompress() { if dm.as_data_vec().is_ok() { n += 1; } } } } n };
+                        let (mut r, mut peak, _t, mut dt) = measure(|| run(&d));
+                        let bound = 192 * 1024 + 64 * d.len();
+                        if peak > bound { let again = measure(|| run(&d)); r = again.0; peak = again.1; dt = again.3; }
+                        let ok = r.is_ok() && peak <= bound && dt < 5.0;
+                        out.case("", &[], &["declared-literal".into(), shape.into(), declared.to_string(), have.to_string(), (legacy as u8).to_string()], &format!("peak={peak} bound={bound} secs={:.2} {}", dt, r.as_ref().map(|n| n.to_string()).unwrap_or_else(|e| e.clone())), Some(ok), &format!("declared-literal-{shape}"));
+                    }
+                }
+            }
+        }
+    }
 
     // ---- 1. sizes declared but not supplied: every position of the first octets of every small fixture packet
     //        overwritten with 0xff.. (1, 2, 4 octets wide); allocation must follow the input, not the claim
